@@ -416,6 +416,15 @@ pub fn sync_loop_run(world: &World, seed: u64, tag: &str, cfg: &SyncCfg) -> Sync
 				break 'run;
 			}
 			// 5. the connection: redial when R hung up (a new address two times in three)
+			// (a hang-up decided by the sync thread itself - a ban, a disconnect of a timed-out peer - is
+			// read off the node's Peer object, which changed state before the thread parked; noticing it
+			// on the socket instead would depend on whether the reader thread still answers one more ping)
+			if let Some(p) = sp_r.get_mut(0) {
+				if p.alive && p.node_peer.as_ref().map(|np| !np.is_connected()).unwrap_or(false) {
+					p.close();
+					bump!(out.probes, "hangup_by_sync_thread_seen_on_peer_object");
+				}
+			}
 			if sp_r.is_empty() || !sp_r[0].alive {
 				if faults_on && rng.chance(1, 3) {
 					// stays away for a while
@@ -445,6 +454,13 @@ pub fn sync_loop_run(world: &World, seed: u64, tag: &str, cfg: &SyncCfg) -> Sync
 					break 'run;
 				}
 				asked_msgs = std::mem::take(&mut sp_r[0].inbox);
+				// the node hung up in this very iteration (a ban, a frame it could not decode): what it wrote
+				// just before closing reaches the other end or not - a close with unread input resets the
+				// connection and discards what was in flight - and no answer could come back anyway. Never seen.
+				if !sp_r[0].alive && !asked_msgs.is_empty() {
+					asked_msgs.clear();
+					bump!(out.probes, "requests_before_hangup_discarded");
+				}
 			}
 			let mut moved = !asked_msgs.is_empty();
 			let mut asked_names: Vec<String> = vec![];
